@@ -19,6 +19,7 @@
 (*       "Tbl"   table whose last cell holds the links                     *)
 (*       "Code"  code block (text is the body, no links)                   *)
 (*       "Meta"  front matter (only as the first block; text is its value) *)
+(*       "QH" / "QP"  heading (level lvl) / paragraph inside a block quote *)
 (* Link  == [url : Url, kind, text, ext]                                   *)
 (*   kind = "inline" | "wiki" | "piped" | "auto";  ext = TRUE for external *)
 (*   urls (http:, HTTPS:, mailto:), whose url.segs holds the whole url     *)
